@@ -16,9 +16,16 @@ for d in /verif/seeded/$pat/; do
   git -C /repo worktree add -q --detach $wt HEAD
   if ! git -C $wt apply $d/patch.diff 2>/dev/null; then echo "$id: patch no longer applies"; git -C /repo worktree remove --force $wt; continue; fi
   log=$(cd $ev && VERIF_REPO=$wt timeout 1500 ./check $prop --tier $tier 2>&1); rc=$?
-  git -C /repo worktree remove --force $wt
   first=$(echo "$log" | grep -a -m1 '^VIOLATION' | tr -cd '[:print:]'); detail=$(echo "$log" | grep -a -m1 '^  (' | cut -c1-160 | tr -cd '[:print:]')
   caught=no; [ $rc = 1 ] && [ -n "$first" ] && caught=yes
+  if [ $caught = no ] && [ -x $d/demo/run.sh -o -f $d/demo/run.sh ]; then
+    # does the change still break the property on the current (repaired) tree? its own demo decides
+    if ( export GOFLAGS=-mod=mod GOPROXY=off GOSUMDB=off GOTOOLCHAIN=local; timeout 600 bash $d/demo/run.sh $wt >/dev/null 2>&1 ); then
+      caught=neutralised; detail="the author's demonstration passes with the change applied to the current tree: it no longer breaks the property (depended on behaviour since repaired by a fix: commit)"
+    fi
+    git -C $wt checkout -q -- . 2>/dev/null; git -C $wt clean -fdq 2>/dev/null
+  fi
+  git -C /repo worktree remove --force $wt
   ( flock 9; grep -v "^$id	" $out > $out.tmp.$$; mv $out.tmp.$$ $out
   printf "%s\t%s\t%s\t%s\t%s\t%s\n" "$id" "$prop" "$tier" "$caught" "$first" "$detail" >> $out ) 9>/root/seedeval/.results.lock
   echo "$id: caught=$caught  $first $detail"
